@@ -25,9 +25,9 @@ Print Assumptions C09_gc_terminates_refuted.
 (* GC of the repaired code returns Ok (never the fuel/hang result) in every state, for every
    iteration order of every pass. *)
 Theorem C09_gc_terminates :
-  forall succ subject, acyclic succ -> subject_listed succ subject ->
+  forall succ subject manifest, acyclic succ -> subject_listed succ subject ->
   forall kl ords st, same_elements ords (candidates (idx st)) ->
-  snd (gc succ subject cfg_fixed kl ords st) = Ok.
+  snd (gc succ subject manifest cfg_fixed kl ords st) = Ok.
 Proof. exact gc_terminates_final. Qed.
 Print Assumptions C09_gc_terminates.
 
@@ -38,10 +38,10 @@ Print Assumptions C09_gc_terminates.
    exactly its live predecessors; stray files are removed iff they have a valid digest name in
    a known algorithm directory.  Independent of all iteration orders. *)
 Theorem C09_gc_exact :
-  forall succ subject, acyclic succ -> subject_listed succ subject ->
+  forall succ subject manifest, acyclic succ -> subject_listed succ subject ->
   forall kl ords st, same_elements ords (candidates (idx st)) ->
   exists st',
-    gc succ subject cfg_fixed kl ords st = (st', Ok) /\
+    gc succ subject manifest cfg_fixed kl ords st = (st', Ok) /\
     (forall x, In x (blobs st') <-> In x (blobs st) /\ Live succ subject st x) /\
     (forall x, In x (gnodes st') <-> Live succ subject st x) /\
     (forall t n, In (RTag t, n) (idx st') <-> In (RTag t, n) (idx st)) /\
@@ -54,20 +54,34 @@ Print Assumptions C09_gc_exact.
 (* Before the repair (F13) one referrer pass made the result depend on the map order. *)
 Theorem C09_gc_order_refuted :
   let st := run_w cfg_fixed [OPush 0; OPush 1; OPush 5; OPush 6; OPush 7; OTag 1 0] in
-  In 7 (blobs (fst (gc succ_w subject_w cfg_noF13 false (fun _ => [6; 7; 5]) st))) /\
-  ~ In 7 (blobs (fst (gc succ_w subject_w cfg_noF13 false (fun _ => [7; 6; 5]) st))) /\
+  In 7 (blobs (fst (gc succ_w subject_w manifest_w cfg_noF13 false (fun _ => [6; 7; 5]) st))) /\
+  ~ In 7 (blobs (fst (gc succ_w subject_w manifest_w cfg_noF13 false (fun _ => [7; 6; 5]) st))) /\
   (forall n, In n [6; 7; 5] <-> In n (candidates (idx st))).
 Proof. exact gc_noF13_order_dependent. Qed.
 Print Assumptions C09_gc_order_refuted.
+
+(* Reopening the store right after GC (index.json holds the rebuilt index) gives the same
+   storage, the same references and the same graph, hence the same predecessors *)
+Theorem C09_gc_reopen :
+  forall succ subject manifest, acyclic succ -> subject_listed succ subject ->
+  forall kl ords st st', same_elements ords (candidates (idx st)) ->
+  gc succ subject manifest cfg_fixed kl ords st = (st', Ok) ->
+  let st2 := fst (step succ subject manifest cfg_fixed kl st' OReopen) in
+  blobs st2 = blobs st' /\ idx st2 = idx st' /\ strays st2 = strays st' /\
+  (forall x, In x (gnodes st2) <-> In x (gnodes st')).
+Proof. exact gc_reopen_final. Qed.
+Print Assumptions C09_gc_reopen.
 
 (* ---- Delete ---- *)
 
 (* Delete x with AutoGC on, x stored: for every iteration order it returns Ok and removes
    exactly [Gone]: the least set containing x, closed under "untagged manifest of the store
-   whose subject (a manifest) was removed" and "untagged node of the store that had
-   predecessors, all of which were removed" -- from the storage, from the graph and from the
-   reference index (so the tags of x go, and the digest references of what is removed);
-   every tag of another node stays. *)
+   whose subject (a manifest) was removed and all of whose holders were removed" and
+   "untagged node of the store that had predecessors, all of which were removed" -- from the
+   storage, from the graph and from the reference index (so the tags of x go, and the digest
+   references of what is removed); every tag of another node stays.  A holder of r is a
+   predecessor that lists r other than as its subject: a referrer does not keep its subject
+   alive, every other link does. *)
 Theorem C09_delete_exact :
   forall succ subject manifest, acyclic succ -> subject_listed succ subject ->
   forall st x, wf st -> autogc st = true -> In x (blobs st) ->
@@ -92,25 +106,27 @@ Theorem C09_delete_queue_terminates :
 Proof. exact delete_terminates_final. Qed.
 Print Assumptions C09_delete_queue_terminates.
 
-(* What the cascade never takes: a tagged node; a node outside the store's graph; and a node
-   taken by the dangling rule has no surviving predecessor.  (partial: for a node taken by the
-   referrer rule the last clause is refuted below.) *)
-Theorem C09_delete_never_partial :
+(* What the cascade never takes: a tagged node; a node outside the store's graph; a node
+   that a surviving node still lists (every predecessor of a removed node, other than the
+   node's own referrers, is removed as well). *)
+Theorem C09_delete_never :
   forall succ subject manifest st x y,
   Gone succ subject manifest st x y -> y <> x ->
   is_tagged st y = false /\ In y (gnodes st) /\
-  ((forall m, subject y = Some m -> ~ Gone succ subject manifest st x m) ->
-   forall p, In p (gnodes st) -> In y (succ p) -> Gone succ subject manifest st x p).
+  (forall p, In p (gnodes st) -> In y (succ p) -> subject p <> Some y ->
+             Gone succ subject manifest st x p).
 Proof. exact delete_never_final. Qed.
-Print Assumptions C09_delete_never_partial.
+Print Assumptions C09_delete_never.
 
-(* known finding delete-referrer-still-linked: the referrer 2 of the deleted manifest 1 is
-   removed although the surviving tagged index 4 lists it *)
+(* Before the repair of the referrer rule: the referrer 2 of the deleted manifest 1 is removed
+   although the surviving tagged index 4 lists it (repaired: 2 and 4 stay) *)
 Theorem C09_delete_surviving_pred_refuted :
   let st := run_w cfg_fixed [OPush 0; OPush 1; OPush 2; OPush 4; OTag 4 0] in
-  let st' := fst (delete succ_w subject_w manifest_w cfg_fixed ord_id st 1) in
-  snd (delete succ_w subject_w manifest_w cfg_fixed ord_id st 1) = Ok /\
-  ~ In 2 (blobs st') /\ In 4 (gnodes st') /\ In 2 (succ_w 4).
+  let st' := fst (delete succ_w subject_w manifest_w cfg_noHold ord_id st 1) in
+  let fx' := fst (delete succ_w subject_w manifest_w cfg_fixed ord_id st 1) in
+  snd (delete succ_w subject_w manifest_w cfg_noHold ord_id st 1) = Ok /\
+  ~ In 2 (blobs st') /\ In 4 (gnodes st') /\ In 2 (succ_w 4) /\ subject_w 4 = None /\
+  blobs fx' = [4; 2; 0].
 Proof. exact delete_referrer_still_linked. Qed.
 Print Assumptions C09_delete_surviving_pred_refuted.
 
@@ -155,6 +171,49 @@ Theorem C09_delete_order_refuted :
   snd (delete succ_w subject_w manifest_w cfg_noF4 ord_rev st 1) = Ok.
 Proof. exact delete_noF4_order_dependent. Qed.
 Print Assumptions C09_delete_order_refuted.
+
+(* [is_tagged] (Store.isTagged) means "carries a tag" in every state the repaired code can
+   reach: no stale tag-set entries exist *)
+Theorem C09_is_tagged_exact :
+  forall succ subject manifest kl ops,
+  let st := fold_left (fun st o => fst (step succ subject manifest cfg_fixed kl st o)) ops init in
+  forall n, is_tagged st n = true <-> exists t, In (RTag t, n) (idx st).
+Proof. exact no_stale_final. Qed.
+Print Assumptions C09_is_tagged_exact.
+
+(* Before the repair of resolver.Memory.Tag: after tag 0 moved from 5 to 1, deleting the index
+   6 that lists 5 leaves the untagged, no longer referenced 5 behind (repaired: removed) *)
+Theorem C09_delete_stale_tag_refuted :
+  let st := run_w cfg_noStale stale_ops in
+  let st' := fst (delete succ_w subject_w manifest_w cfg_noStale ord_id st 6) in
+  let fx := run_w cfg_fixed stale_ops in
+  let fx' := fst (delete succ_w subject_w manifest_w cfg_fixed ord_id fx 6) in
+  lookup (RTag 0) (idx st) = Some 1 /\ (forall t, ~ In (RTag t, 5) (idx st)) /\
+  In 5 (blobs st') /\ (forall p, In p (gnodes st') -> ~ In 5 (succ_w p)) /\
+  ~ In 5 (blobs fx') /\ blobs fx' = [1; 0].
+Proof. exact delete_stale_tag_leaves_garbage. Qed.
+Print Assumptions C09_delete_stale_tag_refuted.
+
+(* Before the repair of the dangling-leaf abort: push image 1 without its config 0, tag, GC;
+   Delete 1 returns not found (repaired: Ok) *)
+Theorem C09_delete_absent_leaf_refuted :
+  let st := run_w cfg_noLeaf leaf_ops in
+  In 1 (blobs st) /\ In 0 (gnodes st) /\ ~ In 0 (blobs st) /\
+  snd (delete succ_w subject_w manifest_w cfg_noLeaf ord_id st 1) = ENotFound /\
+  snd (delete succ_w subject_w manifest_w cfg_fixed ord_id (run_w cfg_fixed leaf_ops) 1) = Ok.
+Proof. exact delete_absent_leaf_aborts. Qed.
+Print Assumptions C09_delete_absent_leaf_refuted.
+
+(* Why the repair distinguishes holders from referrers: the naive variant -- queue a referrer
+   only when every predecessor of it is already queued -- leaves the referrer chain
+   1 <- 2 <- 8 behind (2 is "held" by its own referrer 8), although nothing else links to them *)
+Theorem C09_delete_skip_linked_refuted :
+  let st := run_w cfg_fixed [OPush 0; OPush 1; OPush 2; OPush 8] in
+  blobs (fst (delete succ_w subject_w manifest_w cfg_skipLinked ord_id st 1)) = [8; 2; 0] /\
+  blobs (fst (delete succ_w subject_w manifest_w cfg_fixed ord_id st 1)) = [] /\
+  is_tagged st 2 = false /\ is_tagged st 8 = false.
+Proof. exact delete_skip_linked_leaves_chain. Qed.
+Print Assumptions C09_delete_skip_linked_refuted.
 
 (* ---- the hypotheses are satisfiable on non-trivial instances ---- *)
 Example C09_hyps_satisfiable : acyclic succ_w /\ subject_listed succ_w subject_w.
